@@ -1118,6 +1118,156 @@ func tputsGrammar(c *Ctx, p *Prog, fn *ssa.Function, rule string, skipTerm ssa.I
 		c.Check(len(leak) == 0, rule, "TPuts:database-padding-recognised", p.pos(fn.Pos()), fmt.Sprintf("%d distinct bytes occur inside $<…> in the database; not recognised by the scanner (such a specification is written to the terminal as text): %v", len(used), leak))
 		return
 	}
+	// The grammar itself is decided on the scanner's automaton (T19) when it can be extracted: the loop's
+	// finite state (flags, or a state number) × every byte, compared in lockstep with the reference
+	// automaton of $<n[.m][*][/]>.  The structural reading below remains for scanners it cannot follow.
+	{
+		boolI := -1
+		if gate != nil {
+			boolI = boolIdx
+		}
+		var acc ssa.Instruction
+		if gate == nil {
+			acc = skipTerm
+		}
+		if auto, err := paddingAutomaton(p, scan, loopHdr, isSpecByte, acc, rejects, boolI); err == nil {
+			var extraA, missingA []string
+			for k := range auto.alphabet {
+				if !want[k] {
+					extraA = append(extraA, fmt.Sprintf("%q", rune(k)))
+				}
+			}
+			for k := range want {
+				if !auto.alphabet[k] {
+					missingA = append(missingA, fmt.Sprintf("%q", rune(k)))
+				}
+			}
+			sort.Strings(extraA)
+			sort.Strings(missingA)
+			c.Check(len(extraA) == 0 && len(missingA) == 0, rule, "TPuts:grammar:alphabet", p.pos(fn.Pos()), fmt.Sprintf("bytes some state of the scanner lets through: %d (missing %v, unexpected %v); terminfo(5): digits, '.', '*', '/'; %d state pairs explored", len(auto.alphabet), missingA, extraA, auto.states))
+			// after the write that keeps the marker the terminator is not skipped before the next scan
+			skipsAfter := false
+			if gate == nil || true {
+				var hdrT *ssa.BasicBlock
+				eachInstr(fn, func(in ssa.Instruction) {
+					if call, ok := in.(*ssa.Call); ok && calleeName(&call.Call) == "strings.Index" {
+						if m, _ := constString(call.Call.Args[1]); m == "$<" {
+							hdrT = call.Block()
+						}
+					}
+				})
+				seenB := map[*ssa.BasicBlock]bool{}
+				var stack []*ssa.BasicBlock
+				for _, w := range rejects {
+					stack = append(stack, w.Block().Succs...)
+				}
+				for len(stack) > 0 {
+					b := stack[len(stack)-1]
+					stack = stack[:len(stack)-1]
+					if seenB[b] || b == hdrT {
+						continue
+					}
+					seenB[b] = true
+					if b == skipTerm.Block() {
+						skipsAfter = true
+					}
+					stack = append(stack, b.Succs...)
+				}
+			}
+			// (scanner in a helper: the rejecting answer must lead to the write that keeps the marker)
+			helperOK := true
+			if gate != nil {
+				helperOK = false
+				for _, b := range fn.Blocks {
+					if len(b.Instrs) == 0 {
+						continue
+					}
+					iff, ok := b.Instrs[len(b.Instrs)-1].(*ssa.If)
+					if !ok {
+						continue
+					}
+					cond, neg := iff.Cond, false
+					if u, isU := cond.(*ssa.UnOp); isU && u.Op == token.NOT {
+						cond, neg = u.X, true
+					}
+					ex, isEx := cond.(*ssa.Extract)
+					if !isEx || ex.Tuple != ssa.Value(gate) || ex.Index != boolIdx {
+						continue
+					}
+					no := b.Succs[1]
+					if neg {
+						no = b.Succs[0]
+					}
+					// every path from the "no" edge to the next scan passes a reject write, and the skip
+					// of the terminator lies behind the "yes" edge
+					stop := map[ssa.Instruction]bool{}
+					for _, w := range rejects {
+						stop[w] = true
+					}
+					reachesSkip := false
+					seenB := map[*ssa.BasicBlock]bool{}
+					stack := []*ssa.BasicBlock{no}
+					escapes := false
+					for len(stack) > 0 {
+						x := stack[len(stack)-1]
+						stack = stack[:len(stack)-1]
+						if seenB[x] {
+							continue
+						}
+						seenB[x] = true
+						blocked := false
+						for _, in := range x.Instrs {
+							if stop[in] {
+								blocked = true
+							}
+							if in == skipTerm {
+								reachesSkip = true
+							}
+						}
+						if blocked {
+							continue
+						}
+						if len(x.Succs) == 0 {
+							escapes = true
+						}
+						for _, sc := range x.Succs {
+							if sc.Dominates(b) && sc != b {
+								escapes = true // back at the scan without having kept the text
+								continue
+							}
+							stack = append(stack, sc)
+						}
+					}
+					helperOK = !escapes && !reachesSkip
+				}
+			}
+			c.Check(len(auto.acceptsBad) == 0 && !skipsAfter && helperOK && len(rejects) > 0, rule, "TPuts:ill-formed-kept", p.pos(fn.Pos()), fmt.Sprintf("whatever the grammar rejects the scanner rejects, on the way to the write that keeps the marker, and the terminator is not skipped afterwards %v", auto.acceptsBad))
+			c.Check(len(auto.rejectsGood) == 0 && len(auto.acceptsBad) == 0, rule, "TPuts:well-formed-only", p.pos(skipTerm.Pos()), fmt.Sprintf("the terminator is skipped exactly for well-formed specifications (a number, at most one point, flags last) %v %v", auto.rejectsGood, auto.acceptsBad))
+			// the delay: every digit after the point divides the unit by ten
+			okScale, detail := false, "no `unit /= 10` in the digit case"
+			eachInstr(scan, func(in ssa.Instruction) {
+				bo, ok := in.(*ssa.BinOp)
+				if !ok || bo.Op != token.QUO {
+					return
+				}
+				if k, ok := constInt(bo.Y); !ok || k != 10 {
+					return
+				}
+				if _, isPhi := bo.X.(*ssa.Phi); !isPhi {
+					return
+				}
+				for x := bo.Block(); x != nil; x = x.Idom() {
+					if classOnlyDigits(x) {
+						okScale, detail = true, "unit /= 10 per digit after the point"
+					}
+				}
+			})
+			c.Check(okScale, rule, "TPuts:fraction-scales-unit", p.pos(fn.Pos()), detail)
+			return
+		} else {
+			c.Note("C15-R5: the scanner's automaton could not be extracted (" + err.Error() + "); reading its structure instead")
+		}
+	}
 	c.Check(len(extra) == 0 && len(missing) == 0, rule, "TPuts:grammar:alphabet", p.pos(fn.Pos()), fmt.Sprintf("bytes the specification scanner treats specially: %d in %d classes (missing %v, unexpected %v); terminfo(5): digits, '.', '*', '/'", len(alphabet), len(classes)-1, missing, extra))
 	// the reject case: the block only "any other byte" reaches
 	var def *ssa.BasicBlock
